@@ -6,12 +6,24 @@ import (
 
 	"github.com/google/uuid"
 	"github.com/kercylan98/vivid"
+	"github.com/kercylan98/vivid/internal/messages"
 	"github.com/kercylan98/vivid/internal/utils"
 )
 
 var (
 	_ vivid.ActorRef = (*Ref)(nil)
 )
+
+func init() {
+	// 供根包解码携带 ActorRef 的内置消息（OnKill、OnKilled）时重建引用
+	messages.ActorRefFactory = func(address, path string) (any, error) {
+		ref, err := NewRef(address, path)
+		if err != nil {
+			return nil, err
+		}
+		return ref, nil
+	}
+}
 
 const agentFutureMarker = "@future@"
 const LocalAddress = "localhost"
